@@ -226,6 +226,11 @@ pub fn with_policy<T>(policy: Policy, sound_key: bool, f: impl FnOnce() -> T) ->
 
 pub const SIG_MEMO: &str = "result-depends-on-memo-eviction";
 
+/// known-finding signature of one specific input whose result depends on memo eviction
+pub fn memo_sig_for(src: &str) -> String {
+    format!("{}/in={:016x}", SIG_MEMO, fnv(src.as_bytes()))
+}
+
 /// Is the nows-skeleton `want` obtained for `src` once nothing is ever evicted from the
 /// memo table? (attribution of a failure to the known memo defect, see DESIGN.md 7/P10)
 pub fn unbounded_memo_gives(src: &str, lib: bool, want: &str) -> bool {
